@@ -1,0 +1,10 @@
+//go:build verif
+
+// Package verifhook exists only for the external verification harness (build
+// tag "verif"): it links the repository's internal test protos into a binary
+// built outside this module. With the tag off this directory holds no package.
+package verifhook
+
+import (
+	_ "github.com/cosmos/cosmos-proto/internal/testprotos/test3"
+)
